@@ -170,6 +170,17 @@ add("C18", "exploration",
     "excluded by construction and counted.",
     "DESIGN.md section 4, C18")
 
+add("C01", "exploration",
+    "model-based property testing of edit programs (Hypothesis, swarm-selected operations) against a reference forest",
+    "Programs of up to 40 structural edits, copies and pickle round trips over generic composites, blocks, assemblies and a "
+    "Reactor/Core/SFP are executed against armi and a reference forest model. After every step all child lists, parent pointers, "
+    "detached locators and grid owners are compared, and traversal, flag, type, component and ancestor queries with generated "
+    "arguments are compared with a naive walk; copies are checked for shape, disjointness and internal re-linking.",
+    "Attribute accessors (.parent, .p.flags bits, .p.type, locator indices and grid, grid.armiObject), Python copy and pickle, and the "
+    "harness's respect of caller preconditions (Core.add location free and name unique, no append/extend, no add of an owned object). "
+    "Deep-traversal order judged as each-once plus sibling order; sort order only for generic composites.",
+    "DESIGN.md section 4, C01")
+
 NOT_BUILT_REASON = "check not built yet in this round (planned in DESIGN.md section 4); not claimed"
 
 
